@@ -9,6 +9,7 @@ import copy
 import itertools
 import json
 
+from .. import canon as C
 from .. import common, evidence, explore, findings
 
 PID = "C19"
@@ -116,7 +117,9 @@ def run(cs, maxlen, depth, rep, max_states=None):
         return None
 
     def canon(st):
-        return (frozenset(p.path for p in st.model), trie_shape(st.pm.trie.root))
+        # the whole implementation object (every attribute, also ones a later version may add) is part of the state:
+        # merging two states that differ in some auxiliary structure would hide what that structure does later
+        return (frozenset(p.path for p in st.model), trie_shape(st.pm.trie.root), C.canon(st.pm))
 
     def on_violation(kind, what, hist):
         h = [f"{k}{pname(names, p)}" for k, p in hist]
